@@ -1,4 +1,6 @@
 import Thanos.Model.Sharding
+import Thanos.Model.ShardEval
+import Thanos.Lemmas.ShardEval
 import Thanos.Generated.Facts
 /-
   C44 — Sharded query execution returns the unsharded result.
@@ -103,6 +105,95 @@ example : analyze (.agg "sum" .without ["a"] none (.sel "{__name__=~\"m0|m1\"}")
 example : isShardable (analyze (.agg "count_values" .by_ ["a"] (some (.str "a")) (.sel "m0"))) = false := by decide
 example : analyzeWith false (.agg "count_values" .by_ ["a"] (some (.str "a")) (.sel "m0")) = ⟨some ["a"], true⟩ := by decide
 example : analyze (.agg "count_values" .by_ ["a", "b"] (some (.str "a")) (.sel "m0")) = ⟨some ["b"], true⟩ := by decide
+
+
+/-! ### Part 2: sharded evaluation of the fragment equals unsharded evaluation
+
+  Fragment (`FExpr`, Lemmas/ShardEval.lean): selectors, pointwise functions and filters (with or
+  without dropping the metric name), aggregations `by (L)` / `without (L)` with ANY operator,
+  nested to any depth.  `FExpr.toExpr` is what the analyzer sees, `FExpr.toV` what the engine
+  computes (spec-level semantics at one timestamp, `eval`). -/
+
+/-- abstract form: if no node changes the shard of a series, evaluating on each shard and
+    concatenating is a permutation of evaluating once, and (second part) a series label set comes
+    out of one shard only — so `MergeResponse`, which merges by label set, is a plain union. -/
+theorem C44_compat_sound (sh : Labels → Nat) (e : VExpr) (hc : Compat sh e) (S : Vec) (n : Nat)
+    (hn : ∀ s ∈ S, sh s.1 < n) :
+    ((shardIndices n).flatMap fun i => eval e (shardOf sh i S)).Perm (eval e S) ∧
+    ∀ i j x y, x ∈ eval e (shardOf sh i S) → y ∈ eval e (shardOf sh j S) → x.1 = y.1 → i = j := by
+  constructor
+  · have h1 : ((shardIndices n).flatMap fun i => eval e (shardOf sh i S)) =
+        ((List.range n).flatMap fun i => shardOf sh i (eval e S)) := by
+      unfold shardIndices
+      congr 1; funext i
+      exact eval_shard sh i e hc S
+    rw [h1]
+    refine (perm_shards sh (eval e S) n).trans (List.Perm.of_eq ?_)
+    apply List.filter_eq_self.mpr
+    intro x hx
+    obtain ⟨y, hy, hxy⟩ := eval_shard_of_input sh e hc S x hx
+    simp [hxy, hn y hy]
+  · intro i j x y hx hy hxy
+    rw [eval_shard sh i e hc S] at hx
+    rw [eval_shard sh j e hc S] at hy
+    have hi : sh x.1 = i := by simpa [shardOf] using (List.mem_filter.mp hx).2
+    have hj : sh y.1 = j := by simpa [shardOf] using (List.mem_filter.mp hy).2
+    rw [← hi, ← hj, hxy]
+
+/-- C44 for the fragment at full strength: whatever labels the analyzer chooses. -/
+def C44_fragment_full : Prop :=
+  ∀ (hash : Labels → Nat) (total : Nat) (e : FExpr) (K : List String) (by_ : Bool) (S : Vec),
+    0 < total → e.WF → analyze e.toExpr = ⟨some K, by_⟩ → K ≠ [] →
+    ((shardIndices total).flatMap fun i => eval e.toV (S.filter fun s => shardMatches hash total i K by_ s.1)).Perm
+      (eval e.toV S)
+
+/-- **C44_sound** (fragment): when the analyzer shards a fragment query by `K` and the metric
+    name is treated consistently (`NameSafe`: not among `by` labels, among `without` labels),
+    then for every hash function, shard count, series set, aggregation operators and nesting
+    depth the concatenation of the per-shard results is a permutation of the unsharded result,
+    and no label set is produced by two shards. -/
+theorem C44_sound (hash : Labels → Nat) (total : Nat) (e : FExpr) (K : List String) (by_ : Bool) (S : Vec)
+    (ht : 0 < total) (hwf : e.WF) (ha : analyze e.toExpr = ⟨some K, by_⟩) (hname : NameSafe K by_) :
+    ((shardIndices total).flatMap fun i => eval e.toV (S.filter fun s => shardMatches hash total i K by_ s.1)).Perm
+      (eval e.toV S) ∧
+    ∀ i j x y, x ∈ eval e.toV (S.filter fun s => shardMatches hash total i K by_ s.1) →
+      y ∈ eval e.toV (S.filter fun s => shardMatches hash total j K by_ s.1) → x.1 = y.1 → i = j := by
+  have hinv : ScopeInv ⟨some K, by_⟩ e.scopes := by
+    have := scopeInv_fold e.scopes ⟨none, false⟩ [] rfl
+    rw [← foldScopes, ← analyze_fragment e hwf, ha] at this
+    simpa using this
+  have hc := compat_of_scoped hash total K by_ e (scoped_of_inv K by_ hname e hinv)
+  have hshard : ∀ i, (S.filter fun s => shardMatches hash total i K by_ s.1) = shardOf (shReal hash total K by_) i S := by
+    intro i
+    unfold shardOf shReal shardMatches
+    apply List.filter_congr
+    intro s _
+    by_cases h : hash (projection K by_ s.1) % total = i <;> simp [h]
+  simp only [hshard]
+  exact C44_compat_sound _ _ hc S total (fun s _ => Nat.mod_lt _ ht)
+
+/-- `sum without (a) (sel)` over the two series m0{a="1"} = 1 and m1{a="2"} = 2 -/
+private def wq : FExpr := .aggWithout "sum" ["a"] List.sum (.sel "{__name__=~\"m0|m1\"}" fun _ => true)
+private def wS : Vec := [([("__name__", "m0"), ("a", "1")], 1), ([("__name__", "m1"), ("a", "2")], 2)]
+private def wHash : Labels → Nat := fun l => if l = [("__name__", "m0")] then 0 else 1
+
+/-- F44a: without `NameSafe` the statement is false — the analyzer shards
+    `sum without (a) ({__name__=~"m0|m1"})` on every label but `a`, the metric name included, so
+    the two series of the single group `{}` may be sent to different shards: two partial sums
+    `{} = 1`, `{} = 2` instead of `{} = 3`. -/
+theorem C44_fragment_full_false : ¬ C44_fragment_full := by
+  intro h
+  have := (h wHash 2 wq ["a"] false wS (by decide) (by simp [wq, FExpr.WF]) (by decide) (by decide)).length_eq
+  revert this
+  decide
+
+-- non-vacuity of C44_sound: a nested by-aggregation that the analyzer shards by `a`
+example : analyze (FExpr.aggBy "max" ["a"] (fun _ => 0) (.fn "abs" true some (.aggBy "sum" ["a", "b"] List.sum (.sel "m0" fun _ => true)))).toExpr
+    = ⟨some ["a"], true⟩ := by decide
+example : NameSafe ["a"] true := by simp [NameSafe]
+-- … and a without-query made safe by an explicit `__name__`
+example : analyze (FExpr.aggWithout "sum" ["a", "__name__"] List.sum (.sel "m0" fun _ => true)).toExpr = ⟨some ["a", "__name__"], false⟩ := by decide
+example : NameSafe ["a", "__name__"] false := by simp [NameSafe]
 
 /-! ### regenerated obligations -/
 
